@@ -19,7 +19,13 @@ def run(op, a):
         d = CBase58Data(_str(a[0]))
         return [d.nVersion, bytes(d)]
     if op == 4:
-        t = str(CBase58Data.from_bytes(a[1], a[0]))
+        first = CBase58Data.from_bytes(a[1], a[0])
+        t = str(first)
+        # the payload may be handed over as an object that is itself Base58Check data (it is a bytes
+        # object): the new object takes its bytes, and the old one keeps its own version and text
+        other = CBase58Data.from_bytes(first, (a[0] + 111) % 256)
+        if str(first) != t or first.nVersion != a[0] or bytes(other) != bytes(first) or other.nVersion != (a[0] + 111) % 256:
+            t = t + '!changed-by-a-later-call'
         d = CBase58Data(t)
         return [_cps(t), d.nVersion, bytes(d)]
     raise ValueError('op')
